@@ -17,18 +17,28 @@ package app
 // and newly queued for finalisation only if its PASSED record is Completed/CompletedYes or its FAILED record is
 // Completed/CompletedNo. (The version bound in the precondition only serves the int64 overflow precondition of
 // ChainState.Commit: one commit per queued transaction.)
+// gBBReads (A-BEGINBLOCK): at BeginBlock the proposal store reads the deliver State right after the previous block's Commit:
+// its block cache is the plain session cache Commit installs (no gas limit applies, so no read can be stale), and no
+// proposal key of the three scanned stages is deleted in the overlay. Under it every scanned value is the visible value,
+// which is what ProposalStore.Iterate needs to hand out ledger records.
+//@ ghost func gBBReads(ps *governance.ProposalStore) bool = ps.state != nil && dyntype(ps.state.cache, "*storage.sessionCache") && (forall k string :: scanKey(k, str(ps.prefixActive)) || scanKey(k, str(ps.prefixPassed)) || scanKey(k, str(ps.prefixFailed)) ==> vHas(ps.state)[k])
 //@ func AddInternalTX
-//@   requires proposalMasterStore != nil && wfPS(proposalMasterStore.Proposal) && gItxWf(transaction) && logger != nil
+//@   expands *sessionCache
+//@   requires proposalMasterStore != nil && wfPS(proposalMasterStore.Proposal) && gItxWf(transaction) && logger != nil && proposalMasterStore.Proposal.state != transaction.State
+//@   assumes gBBReads(proposalMasterStore.Proposal)                                                                                   // A-BEGINBLOCK fresh reads of the deliver State during BeginBlock (see gBBReads)
 //@   requires itCount(proposalMasterStore.Proposal)[str(proposalMasterStore.Proposal.prefixActive)] >= 0 && itCount(proposalMasterStore.Proposal)[str(proposalMasterStore.Proposal.prefixPassed)] >= 0 && itCount(proposalMasterStore.Proposal)[str(proposalMasterStore.Proposal.prefixFailed)] >= 0 && transaction.State.cs.Version + itCount(proposalMasterStore.Proposal)[str(proposalMasterStore.Proposal.prefixActive)] + itCount(proposalMasterStore.Proposal)[str(proposalMasterStore.Proposal.prefixPassed)] + itCount(proposalMasterStore.Proposal)[str(proposalMasterStore.Proposal.prefixFailed)] < 9223372036854775807
 //@   ensures forall id string :: qExp(transaction)[id] && !old(qExp(transaction))[id] ==> gQueuedExp(proposalMasterStore.Proposal, id, height)   // C14.expire-queued-after-deadline
 //@   ensures forall id string :: qFin(transaction)[id] && !old(qFin(transaction))[id] ==> gQueuedFinP(proposalMasterStore.Proposal, id) || gQueuedFinF(proposalMasterStore.Proposal, id)   // C14.finalize-queued-completed
+//@   invariant iter1: gBBReads(proposalMasterStore.Proposal) && proposalMasterStore.Proposal.state == old(proposalMasterStore.Proposal.state) && proposalMasterStore.Proposal.state != transaction.State
 //@   invariant iter1: gItxWf(transaction) && transaction.State.cs.Version <= old(transaction.State.cs.Version) + $n
 //@   invariant iter1: proposalMasterStore.Proposal.prefix == proposalMasterStore.Proposal.prefixActive && qFin(transaction) == old(qFin(transaction))
 //@   invariant iter1: forall id string :: qExp(transaction)[id] && !old(qExp(transaction))[id] ==> gQueuedExp(proposalMasterStore.Proposal, id, height)
+//@   invariant iter2: gBBReads(proposalMasterStore.Proposal) && proposalMasterStore.Proposal.state == old(proposalMasterStore.Proposal.state) && proposalMasterStore.Proposal.state != transaction.State
 //@   invariant iter2: gItxWf(transaction) && transaction.State.cs.Version <= old(transaction.State.cs.Version) + old(itCount(proposalMasterStore.Proposal))[str(proposalMasterStore.Proposal.prefixActive)] + $n
 //@   invariant iter2: proposalMasterStore.Proposal.prefix == proposalMasterStore.Proposal.prefixPassed
 //@   invariant iter2: forall id string :: qExp(transaction)[id] && !old(qExp(transaction))[id] ==> gQueuedExp(proposalMasterStore.Proposal, id, height)
 //@   invariant iter2: forall id string :: qFin(transaction)[id] && !old(qFin(transaction))[id] ==> gQueuedFinP(proposalMasterStore.Proposal, id)
+//@   invariant iter3: gBBReads(proposalMasterStore.Proposal) && proposalMasterStore.Proposal.state == old(proposalMasterStore.Proposal.state) && proposalMasterStore.Proposal.state != transaction.State
 //@   invariant iter3: gItxWf(transaction) && transaction.State.cs.Version <= old(transaction.State.cs.Version) + old(itCount(proposalMasterStore.Proposal))[str(proposalMasterStore.Proposal.prefixActive)] + old(itCount(proposalMasterStore.Proposal))[str(proposalMasterStore.Proposal.prefixPassed)] + $n
 //@   invariant iter3: proposalMasterStore.Proposal.prefix == proposalMasterStore.Proposal.prefixFailed
 //@   invariant iter3: forall id string :: qExp(transaction)[id] && !old(qExp(transaction))[id] ==> gQueuedExp(proposalMasterStore.Proposal, id, height)
